@@ -37,7 +37,8 @@ pub fn gen_plan(rng: &mut Rng, focus: &str, tier: &str, case_idx: u64) -> Plan {
     // one fixed C06 shape per run: every chunk-boundary offset of the stack pointer among the threads that the size limit shortens
     let boundary = focus == "c06" && case_idx == 1;
     // one fixed C20 shape per run: sanitising on, the principal mapping writable and not executable, referenced from stack words only
-    let stack_only = focus == "c20" && case_idx == 1;
+    let stack_only = focus == "c20" && (case_idx == 1 || case_idx == 2);
+    let low_principal = focus == "c20" && case_idx == 2;     // the principal mapping lies BELOW the executable
     let many = boundary || (focus == "c06" && rng.chance(1, 2));
     let nthreads = if force_k1 || stack_only { 3 } else if boundary { 27 } else if many { rng.range(19, if tier == "thorough" { 63 } else { 26 }) } else { match rng.below(4) { 0 => 0, 1 => 1, _ => rng.range(2, 6) } } as usize;
     let offs = [0u32, 8, 2040, 2047, 2048, 2056, 4088, 4095, 0xea0, 0x10];
@@ -58,12 +59,13 @@ pub fn gen_plan(rng: &mut Rng, focus: &str, tier: &str, case_idx: u64) -> Plan {
     }
     // C20: words above the stack pointer that point into the anonymous mappings (a writable non-executable one included),
     // so that a thread can reference the principal mapping from its stack only
-    if stack_only { lines.push("poke 0 64 1 128".into()); lines.push("poke 2 1024 1 4096".into()); }
+    if low_principal { lines.push("anonat 20000000 2 rw-".into()); lines.push("poke 0 64 3 128".into()); lines.push("poke 2 1024 3 4096".into()); }
+    else if stack_only { lines.push("poke 0 64 1 128".into()); lines.push("poke 2 1024 1 4096".into()); }
     else if focus == "c20" { for (i, t) in threads.iter().enumerate() {
         let room = 4096 - (t.sp_off & 4095 & !7);
         if t.kind == Kind::Block && t.at.is_none() && room >= 24 && rng.chance(1, 2) { lines.push(format!("poke {i} {} {} {}", (rng.range(1, (room as u64 - 8) / 8) * 8).min(room as u64 - 8), rng.below(2), rng.below(256) * 8)); } } }
     let blame_late = focus == "c06" && many && !boundary && rng.chance(1, 2);
-    if stack_only { return Plan { scen: Scenario { threads, lines }, blame_late: false, crash: 0, limit: None, sanitize: true, user_maps: vec![], skip: 4, napp }; }
+    if stack_only { return Plan { scen: Scenario { threads, lines }, blame_late: false, crash: 0, limit: None, sanitize: !low_principal, user_maps: vec![], skip: if low_principal { 5 } else { 4 }, napp }; }
     Plan { scen: Scenario { threads, lines }, blame_late, crash: if blame_late { 2 } else if force_k1 { 3 } else if focus == "c05" || focus == "c07" { rng.below(4) as u8 } else if rng.chance(1, 3) { rng.range(1, 2) as u8 } else { 0 },
            limit: if blame_late || boundary { Some(1) } else if focus == "c06" { if rng.chance(2, 3) { Some(*rng.pick(&[1u64, 1000, 100_000, 200_000, 300_000, 1 << 30])) } else { None } } else if rng.chance(1, 6) { Some(1) } else { None },
            sanitize: rng.chance(1, if focus == "c12" { 1 } else { 5 }), user_maps: vec![],
@@ -104,6 +106,7 @@ pub fn configure(rng: &mut Rng, plan: &Plan, target: &Target) -> Configured {
         if plan.skip == 1 { principal = Some(match rng.below(3) { 0 => anon[0] + 0x100, 1 => anon[1] + 0x80, _ => target.fact_hex("blk") }); }
         if plan.skip == 2 { principal = Some(0x10); }
         if plan.skip == 4 { principal = Some(anon[1] + 0x80); }
+        if plan.skip == 5 { principal = Some(0x2000_0080); }
         if let Some(p) = principal { writer.set_principal_mapping_address(p as usize); }
     }
     if !plan.user_maps.is_empty() {
